@@ -194,6 +194,19 @@ def gen_cases(seed, tier):
                     call['explicit'] = dict(mean=float(p['loc'] + p['scale'] * rng.uniform(-1, 1)),
                                             std=float(p['scale'] * rng.uniform(0.5, 2.0)))
             ops.append(call)
+        if api == 'real' and period != 1 and common.stratum(i, 98, 4) == 0:
+            # integer-typed voltages whose statistics window (a refresh call) is CONSTANT, followed by cached calls with a custom
+            # deviation on ordinary integer data: the cached mean is a number, not a sample of the input's integer type
+            qs = [o_ for o_ in ops if o_.get('op') == 'q']
+            if len(qs) >= 3 and sname == 'unit':
+                cval = float(common.pick(rng, [-12.0, 58.0, -67.0, 100.0, 0.0, -128.0]))
+                qs[0].update(int_dtype=True, parts=[dict(dist='const', loc=cval, scale=abs(cval) if cval else 1.0, seed=1)])
+                qs[0].pop('custom', None)
+                qs[0].pop('alias', None)
+                for q_ in qs[1:3]:
+                    sc_ = float(rng.uniform(8, 30))
+                    q_.update(int_dtype=True, parts=[dict(dist='gauss', loc=float(rng.uniform(-40, 40)), scale=sc_, seed=int(rng.integers(2 ** 31)))],
+                              custom=float(sc_ * rng.uniform(0.7, 1.5)))
         cases.append(dict(api=api, bits=bits, period=period, window=ncl, N=int(N), L=L, fwhm=fwhm, tm=tm, zv=zv,
                           scale=sname, ops=ops, twin=bool(api == 'complex' and common.stratum(i, 96, 2) == 0 and hl <= 12),
                           twin_part=int(common.stratum(i, 97, 2)), sub=int(rng.integers(2 ** 31))))
